@@ -331,10 +331,10 @@ def truncate_basename(basename, iso_level, is_dir):
     else:
         maxlen = 31 if is_dir else 30
 
-    # For performance reasons, we first truncate the string to the length
-    # allowed.  Second, ISO9660 Levels 1, 2, and 3 require all uppercase names,
-    # so we uppercase it.
-    valid_base = basename[:maxlen].upper()
+    # ISO9660 Levels 1, 2, and 3 require all uppercase names, so we uppercase
+    # it.  Uppercasing can make a string longer (e.g. the German sharp s becomes
+    # 'SS'), so we truncate to the length allowed only afterwards.
+    valid_base = basename.upper()[:maxlen]
 
     # Finally, ISO9660 requires only uppercase letters, 0-9, and underscore.
     # Translate any non-compliant characters to underscore and return that.
